@@ -22,7 +22,7 @@ RULE = ("(service, N results, arrival point of the A-RELEASE-RQ relative to the 
         "request was read by the provider at the intended point (FSM in Sta8 observed)")
 ASSUMPTIONS = ["bounded progress: ACSE timeout 1 s, watchdog 10 s", "the peer keeps answering sub-operations it is sent"]
 WORKERS = {"quick": 12, "thorough": 16}
-REQUIRE = {"points_reached": 28, "release_rp_seen": 30, "requestor_points": 8}
+REQUIRE = {"points_reached": 40, "release_rp_seen": 45, "requestor_points": 8, "pre_first_result_points": 6, "pipelined_points": 5}
 VER = "1.2.840.10008.1.1"
 CT = "1.2.840.10008.5.1.4.1.1.2"
 FIND = "1.2.840.10008.5.1.4.1.2.1.1"
@@ -48,6 +48,15 @@ def gen_cases(tier, seed):
             # (a release request while a C-STORE sub-operation is outstanding is not enumerated: after its A-RELEASE-RQ the
             #  peer may not send the C-STORE response any more - Sta8 + P-DATA-TF is AA-8 - so pynetdicom's own DIMSE timeout
             #  aborts the sub-operation; the statement exempts aborts by pynetdicom itself)
+    # before the first result is drawn: while the handler is still computing ahead of its first yield (for C-GET / C-MOVE ahead of
+    # the announced count / the destination), for a plain-function C-FIND handler before it returns its list, and with the
+    # A-RELEASE-RQ pipelined in the same TCP write as the request
+    for svc in ("find", "get", "move"):
+        for n in ([0, 2] if tier == "quick" else [0, 1, 2, 4]):
+            cases.append({"role": "acceptor", "svc": svc, "n": n, "point": "pre"})
+            cases.append({"role": "acceptor", "svc": svc, "n": n, "point": "pre", "pipelined": True})
+    for n in (0, 2):
+        cases.append({"role": "acceptor", "svc": "find", "n": n, "point": "pre", "plain": True})
     for svc in ("echo", "store"):
         cases.append({"role": "acceptor", "svc": svc, "n": 0, "point": "during-handler"})
         cases.append({"role": "acceptor", "svc": svc, "n": 0, "point": "after-response"})
@@ -92,13 +101,19 @@ def run_acceptor(case, counters):
             at_gate.set()
             gate.acquire(timeout=6.0)
 
+    def on_find_plain(event):
+        wait_gate("pre")
+        return [(0xFF00, _mk_ds(i)) for i in range(n)]
+
     def on_find(event):
+        wait_gate("pre")
         for i in range(n):
             wait_gate(i)
             yield 0xFF00, _mk_ds(i)
         wait_gate(n)
 
     def on_get(event):
+        wait_gate("pre")
         yield n
         for i in range(n):
             wait_gate(i)
@@ -106,6 +121,7 @@ def run_acceptor(case, counters):
         wait_gate(n)
 
     def on_move(event):
+        wait_gate("pre")
         yield ("127.0.0.1", dest_port)
         yield n
         for i in range(n):
@@ -120,7 +136,7 @@ def run_acceptor(case, counters):
     def on_store(event):
         wait_gate("during-handler")
         return 0x0000
-    handlers = [(evt.EVT_C_FIND, on_find), (evt.EVT_C_GET, on_get), (evt.EVT_C_MOVE, on_move), (evt.EVT_C_ECHO, on_echo),
+    handlers = [(evt.EVT_C_FIND, on_find_plain if case.get("plain") else on_find), (evt.EVT_C_GET, on_get), (evt.EVT_C_MOVE, on_move), (evt.EVT_C_ECHO, on_echo),
                 (evt.EVT_C_STORE, on_store), (evt.EVT_RELEASED, lambda e: hist.__setitem__("released", hist["released"] + 1)),
                 (evt.EVT_ABORTED, lambda e: hist.__setitem__("aborted", hist["aborted"] + 1))]
     server, port = harness.start_server(ae, handlers)
@@ -176,8 +192,26 @@ def run_acceptor(case, counters):
             kw = dict(AffectedSOPClassUID=sop, MessageID=11, Priority=0, CommandDataSetType=0)
             if svc == "move":
                 kw["MoveDestination"] = "DEST"
-            p.send_dimse(ctx, cmdset.make(kind, **kw), IDENT)
-            if isinstance(point, int) and point <= n:
+            if case.get("pipelined"):
+                p.send_raw(b"".join(ps38.encode(v) for v in p.dimse_pdus(ctx, cmdset.make(kind, **kw), IDENT)) + ps38.encode({"type": "RELRQ"}))
+                rel_sent["t"] = time.time()
+                at_gate.wait(6.0)
+                if harness.wait_for(lambda: acc.dul.state_machine.current_state in ("Sta8", "Sta13", "Sta1"), 3.0) and \
+                        acc.dul.state_machine.current_state == "Sta8" and at_gate.is_set():
+                    counters["points_reached"] = counters.get("points_reached", 0) + 1
+                    counters["pipelined_points"] = counters.get("pipelined_points", 0) + 1
+                gate.release()
+            else:
+                p.send_dimse(ctx, cmdset.make(kind, **kw), IDENT)
+            if case.get("pipelined"):
+                pass
+            elif point == "pre":
+                if not at_gate.wait(6.0):
+                    return [], {"setup": "handler never entered", "seen": seen}, "arrival point not reached"
+                send_release()
+                counters["pre_first_result_points"] = counters.get("pre_first_result_points", 0) + 1
+                gate.release()
+            elif isinstance(point, int) and point <= n:
                 # serve sub-operations / collect responses until the handler is parked at the chosen yield
                 deadline = time.time() + 6.0
                 while not at_gate.is_set() and time.time() < deadline:
@@ -390,5 +424,5 @@ def run_case(case):
     counters = {}
     out = (run_acceptor if case["role"] == "acceptor" else run_requestor)(case, counters)
     viol, obs, inc = out
-    return {"key": sha([case["role"], case["svc"], case["n"], case["point"]]), "nontrivial": bool(counters.get("points_reached")),
+    return {"key": sha([case["role"], case["svc"], case["n"], case["point"], bool(case.get("pipelined")), bool(case.get("plain"))]), "nontrivial": bool(counters.get("points_reached")),
             "sample": {"case": case, "observed": obs}, "violations": viol, "counters": counters, "inconclusive": inc}
